@@ -16,10 +16,12 @@ Record lsys := mkLs {
   ls_st : lv;
   ls_K : Z;
   ls_g : ghost;
-  ls_sacks : list (Z * list (Z * Z))   (* (index of the cumulative TSN, gap blocks) of every SACK emitted so far *)
+  ls_sacks : list (Z * list (Z * Z));  (* (index of the cumulative TSN, gap blocks) of every SACK emitted so far *)
+  ls_pend : list (Z * Z)               (* ghost: per stream, the bytes written but still in the pending queue *)
 }.
 
 Inductive lev :=
+| LWrite (sid : Z) (frags : list Z) (* an accepted WriteSCTP: the fragments of one message enter the pending queue *)
 | LSend (sid len : Z)           (* a chunk moves from the pending queue to the in-flight queue and onto the wire *)
 | LT3                            (* T3-rtx expires *)
 | LData (i : Z) (credit : Z)     (* a copy of the DATA chunk with in-flight index i arrives (i < 0: an old duplicate) *)
@@ -30,19 +32,22 @@ Definition ls_n (y : lsys) : Z := Z.of_nat (length (st_infl (lv_s (ls_st y)))).
 Definition lstep (y : lsys) (e : lev) : lsys :=
   let s := lv_s (ls_st y) in let q := lv_q (ls_st y) in
   match e with
+  | LWrite sid frags =>
+      mkLs (mkLv (write_step s sid frags) q) (ls_K y) (ls_g y) (ls_sacks y) (add_bytes (ls_pend y) sid (fold_left Z.add frags 0))
   | LSend sid len =>
       mkLs (mkLv (send_new s sid len (wrap32 (ls_K y + 1 + ls_n y)) true) q) (ls_K y) (ls_g y) (ls_sacks y)
-  | LT3 => mkLs (mkLv (t3_step s) q) (ls_K y) (ls_g y) (ls_sacks y)
+           (add_bytes (ls_pend y) sid (- len))
+  | LT3 => mkLs (mkLv (t3_step s) q) (ls_K y) (ls_g y) (ls_sacks y) (ls_pend y)
   | LData i credit =>
       let r1 := recv_g credit (q, ls_g y) (ls_K y + 1 + i) in
       let r2 := pops_g (S (Z.to_nat (size (fst r1)))) r1 in
-      mkLs (mkLv s (fst r2)) (ls_K y) (snd r2) (ls_sacks y ++ [(gK (snd r2), gap_blocks (fst r2))])
+      mkLs (mkLv s (fst r2)) (ls_K y) (snd r2) (ls_sacks y ++ [(gK (snd r2), gap_blocks (fst r2))]) (ls_pend y)
   | LSack k arwnd =>
       match nth_error (ls_sacks y) k with
       | None => y
       | Some (C, gaps) =>
           match sack_step s (wrap32 C) arwnd gaps with
-          | SOk s' => mkLs (mkLv s' q) (if C <? ls_K y then ls_K y else C) (ls_g y) (ls_sacks y)
+          | SOk s' => mkLs (mkLv s' q) (if C <? ls_K y then ls_K y else C) (ls_g y) (ls_sacks y) (ls_pend y)
           | SErr => y
           end
       end
@@ -52,7 +57,8 @@ Definition lstep (y : lsys) (e : lev) : lsys :=
    TSNs that were sent and not older than 2^30 TSNs (bounded packet lifetime, as in C05) *)
 Definition lev_ok (y : lsys) (e : lev) : Prop :=
   match e with
-  | LSend sid len => 0 <= len <= st_mtu (lv_s (ls_st y)) /\ ls_n y + 1 < B30
+  | LWrite sid frags => Forall (fun f => 0 < f) frags /\ In sid (map fst (st_buffered (lv_s (ls_st y))))
+  | LSend sid len => 0 < len <= st_mtu (lv_s (ls_st y)) /\ len <= lookup (ls_pend y) sid /\ ls_n y + 1 < B30
   | LT3 => True
   | LData i credit => - B30 < i < ls_n y
   | LSack k arwnd => match nth_error (ls_sacks y) k with Some (C, _) => ls_K y - B30 < C | None => True end
@@ -72,7 +78,7 @@ Definition truthful (g : ghost) (sk : Z * list (Z * Z)) : Prop :=
   forall b e, In (b, e) (snd sk) -> 1 <= b /\ b <= e /\ forall o, b <= o <= e -> In (fst sk + o) (gacc g).
 
 Definition SysInv (k0 : Z) (y : lsys) : Prop :=
-  LInv (ls_st y) (ls_K y) (ls_g y) k0 /\ Forall (truthful (ls_g y)) (ls_sacks y).
+  LInv (ls_st y) (ls_K y) (ls_g y) k0 /\ Forall (truthful (ls_g y)) (ls_sacks y) /\ BI (lv_s (ls_st y)) (ls_pend y).
 
 (* ---------- preservation, event by event ---------- *)
 
@@ -208,22 +214,35 @@ Qed.
 
 (* ---------- every reachable state ---------- *)
 
+Lemma LInv_write st K g k0 sid frags :
+  LInv st K g k0 -> LInv (mkLv (write_step (lv_s st) sid frags) (lv_q st)) K g k0.
+Proof.
+  intros [SL Jq Hcum Hsent Hack Hch Hhole Hwin Hmtu]. destruct st as [s q]. cbn [lv_s lv_q] in *.
+  destruct SL as [A B C D].
+  constructor; cbn [lv_s lv_q write_step st_infl st_mtu]; try assumption.
+  constructor; cbn [write_step st_cum st_front st_infl st_state]; assumption.
+Qed.
+
 Lemma lstep_inv k0 y e : SysInv k0 y -> lev_ok y e -> SysInv k0 (lstep y e).
 Proof.
-  intros [LI TR] Hok. destruct y as [st K g sacks]. cbn [ls_st ls_K ls_g ls_sacks] in *.
-  destruct e as [sid len|  |i credit|k arwnd]; cbn [lstep lev_ok ls_st ls_K ls_g ls_sacks ls_n] in *.
-  - destruct Hok as [Hl Hn]. split; [|assumption]. cbn [ls_st ls_K ls_g]. apply (LInv_send st K g k0 sid len LI Hl Hn).
-  - split; [|assumption]. cbn [ls_st ls_K ls_g]. apply LInv_t3. assumption.
+  intros (LI & TR & HB) Hok. destruct y as [st K g sacks pend]. cbn [ls_st ls_K ls_g ls_sacks ls_pend] in *.
+  destruct e as [sid frags|sid len|  |i credit|k arwnd]; cbn [lstep lev_ok ls_st ls_K ls_g ls_sacks ls_pend ls_n lv_s lv_q] in *.
+  - destruct Hok as [Hf Hin]. split; [apply LInv_write; assumption|]. split; [assumption|].
+    apply (write_step_BI (lv_s st) pend sid frags HB Hf Hin).
+  - destruct Hok as (Hl & Hp & Hn). split; [apply (LInv_send st K g k0 sid len LI); [lia|assumption]|]. split; [assumption|].
+    apply (send_new_BI (lv_s st) pend sid len _ true HB); lia.
+  - split; [apply LInv_t3; assumption|]. split; [assumption|]. apply t3_step_BI. assumption.
   - destruct (LInv_data st K g k0 i credit LI Hok) as (LI2 & GK & ACC & TN).
-    split; cbn [ls_st ls_K ls_g ls_sacks]; [exact LI2|].
+    split; [exact LI2|]. split; [|assumption].
     apply Forall_app. split.
     + eapply Forall_impl; [|exact TR]. intros sk Hsk. eapply truthful_mono; eassumption.
     + constructor; [exact TN|constructor].
-  - destruct (nth_error sacks k) as [[C gaps]|] eqn:En; [|split; assumption].
+  - destruct (nth_error sacks k) as [[C gaps]|] eqn:En; [|split; [assumption|split; assumption]].
     assert (Ht : truthful g (C, gaps)).
     { rewrite Forall_forall in TR. apply TR. eapply nth_error_In. eassumption. }
     destruct (LInv_sack st K g k0 C gaps arwnd LI Ht Hok) as (s' & E & LI').
-    rewrite E. split; cbn [ls_st ls_K ls_g ls_sacks]; assumption.
+    rewrite E. cbn [ls_st ls_K ls_g ls_sacks ls_pend lv_s]. split; [assumption|]. split; [assumption|].
+    apply (sack_step_BI (lv_s st) (wrap32 C) arwnd gaps s' pend E HB).
 Qed.
 
 Theorem lrun_inv k0 : forall evs y, SysInv k0 y -> lrun_ok y evs -> SysInv k0 (lrun y evs).
@@ -234,47 +253,70 @@ Qed.
 
 (* the start: nothing in flight, receiver initialised at the same TSN, no SACK emitted yet *)
 Lemma SysInv_init s K m :
-  Sl s K -> st_infl s = [] -> 1 <= m < 2147483584 -> 0 < st_mtu s ->
-  SysInv K (mkLs (mkLv s (rpq_init (rpq_new m) (wrap32 K))) K (mkGhost K [] []) []).
+  Sl s K -> st_infl s = [] -> 1 <= m < 2147483584 -> 0 < st_mtu s -> BI s [] ->
+  SysInv K (mkLs (mkLv s (rpq_init (rpq_new m) (wrap32 K))) K (mkGhost K [] []) [] []).
 Proof.
-  intros SL Ee Hm Hmtu. split; [|constructor]. cbn [ls_st ls_K ls_g].
+  intros SL Ee Hm Hmtu HB. split; [|split; [constructor|exact HB]]. cbn [ls_st ls_K ls_g].
   apply (LInv_all_lost s K m SL Hm Hmtu). intros i c Ei. rewrite Ee in Ei. destruct i; discriminate.
+Qed.
+
+Lemma round_BI gate credit arwnd st st' pend :
+  lv_round gate credit arwnd st = Some st' -> BI (lv_s st) pend -> BI (lv_s st') pend.
+Proof.
+  unfold lv_round. intros H HB.
+  match type of H with match sack_step ?S ?C ?A ?G with _ => _ end = _ => destruct (sack_step S C A G) as [s2|] eqn:E; [|discriminate] end.
+  inversion H; subst st'. cbn [lv_s].
+  apply (sack_step_BI _ _ _ _ _ pend E). apply t3_step_BI. assumption.
+Qed.
+
+Lemma rounds_BI gate credit arwnd pend : forall n st st',
+  lv_rounds n gate credit arwnd st = Some st' -> BI (lv_s st) pend -> BI (lv_s st') pend.
+Proof.
+  induction n as [|n IH]; intros st st' H HB; cbn [lv_rounds] in H.
+  - inversion H; subst. assumption.
+  - destruct (lv_round gate credit arwnd st) as [st1|] eqn:E; [|discriminate].
+    apply (IH st1 st' H). apply (round_BI gate credit arwnd st st1 pend E HB).
 Qed.
 
 (* C02 for every reachable state: after ANY history of sends, T3 expiries, arrivals, losses, duplications and
    reorderings of DATA and SACKs, a fault-free suffix of at most n retransmission rounds empties the in-flight queue *)
 Theorem reachable_state_drains gate credit arwnd s K m evs :
-  Sl s K -> st_infl s = [] -> 1 <= m < 2147483584 -> 0 < st_mtu s ->
-  let y0 := mkLs (mkLv s (rpq_init (rpq_new m) (wrap32 K))) K (mkGhost K [] []) [] in
+  Sl s K -> st_infl s = [] -> 1 <= m < 2147483584 -> 0 < st_mtu s -> BI s [] ->
+  let y0 := mkLs (mkLv s (rpq_init (rpq_new m) (wrap32 K))) K (mkGhost K [] []) [] [] in
   lrun_ok y0 evs ->
   let y := lrun y0 evs in
   (forall x, 0 <= x <= st_mtu (lv_s (ls_st y)) -> gate x = true) -> 0 < credit 0 ->
   exists r st', (r <= length (st_infl (lv_s (ls_st y))))%nat /\
     lv_rounds r gate credit arwnd (ls_st y) = Some st' /\ st_infl (lv_s st') = [] /\
-    st_cum (lv_s st') = wrap32 (ls_K y + ls_n y).
+    st_cum (lv_s st') = wrap32 (ls_K y + ls_n y) /\
+    st_nbytes (lv_s st') = 0 /\
+    (forall k, In k (map fst (st_buffered (lv_s st'))) -> lookup (st_buffered (lv_s st')) k = lookup (ls_pend y) k).
 Proof.
-  intros SL Ee Hm Hmtu y0 Hok y Hgate Hcr.
-  destruct (lrun_inv K evs y0 (SysInv_init s K m SL Ee Hm Hmtu) Hok) as [LI _]. fold y in LI.
+  intros SL Ee Hm Hmtu HB0 y0 Hok y Hgate Hcr.
+  destruct (lrun_inv K evs y0 (SysInv_init s K m SL Ee Hm Hmtu HB0) Hok) as (LI & _ & HB). fold y in LI, HB.
   destruct (drains gate credit arwnd K Hcr (length (st_infl (lv_s (ls_st y)))) (ls_st y) (ls_K y) (ls_g y) (le_n _) LI Hgate)
     as (r & st' & g' & Hr & Er & LI' & Ee').
+  pose proof (rounds_BI gate credit arwnd (ls_pend y) r (ls_st y) st' Er HB) as HB'.
   exists r, st'. split; [assumption|]. split; [assumption|]. split; [assumption|].
-  apply (sl_cum _ _ (li_sl _ _ _ _ LI')).
+  split; [apply (sl_cum _ _ (li_sl _ _ _ _ LI'))|].
+  destruct HB' as [Bok Bn Bnd Bbuf Bp]. rewrite Ee' in Bn, Bbuf. split; [exact Bn|].
+  intros k Hk. rewrite (Bbuf k Hk). unfold infl_sid. cbn. lia.
 Qed.
 
 (* C01-style safety that falls out of the invariant: in every reachable state the sender's cumulative ack
    point never runs ahead of what the receiver has actually taken, and every chunk the sender considers
    acknowledged was accepted by the receiver *)
 Theorem reachable_ack_is_honest s K m evs :
-  Sl s K -> st_infl s = [] -> 1 <= m < 2147483584 -> 0 < st_mtu s ->
-  let y0 := mkLs (mkLv s (rpq_init (rpq_new m) (wrap32 K))) K (mkGhost K [] []) [] in
+  Sl s K -> st_infl s = [] -> 1 <= m < 2147483584 -> 0 < st_mtu s -> BI s [] ->
+  let y0 := mkLs (mkLv s (rpq_init (rpq_new m) (wrap32 K))) K (mkGhost K [] []) [] [] in
   lrun_ok y0 evs ->
   let y := lrun y0 evs in
   st_cum (lv_s (ls_st y)) = wrap32 (ls_K y) /\ ls_K y <= gK (ls_g y) /\ cum (lv_q (ls_st y)) = wrap32 (gK (ls_g y)) /\
   (forall i c, nth_error (st_infl (lv_s (ls_st y))) i = Some c -> sc_acked c = true -> In (ls_K y + 1 + Z.of_nat i) (gacc (ls_g y))) /\
   (forall k, K < k <= gK (ls_g y) -> In k (gacc (ls_g y)) \/ skipped (ls_g y) k).
 Proof.
-  intros SL Ee Hm Hmtu y0 Hok y.
-  destruct (lrun_inv K evs y0 (SysInv_init s K m SL Ee Hm Hmtu) Hok) as [LI _]. fold y in LI.
+  intros SL Ee Hm Hmtu HB0 y0 Hok y.
+  destruct (lrun_inv K evs y0 (SysInv_init s K m SL Ee Hm Hmtu HB0) Hok) as (LI & _ & _). fold y in LI.
   destruct LI as [SL' Jq Hcum Hsent Hack Hch Hhole Hwin Hmtu'].
   split; [apply (sl_cum _ _ SL')|]. split; [lia|]. split; [apply (j_cum _ _ Jq)|]. split; [exact Hack|].
   apply (j_cover _ _ Jq).
